@@ -25,12 +25,18 @@ WithReferrers == {Sc("PR", "put_refd", "", "A2", FALSE), Sc("PR", "put_ref", "ar
                   Sc("PR2", "man_delete", "", "A1", FALSE), Sc("PR2", "man_delete", "", "A2", TRUE), Sc("PR2", "put_refd", "", "A1", FALSE)}
 WithLeftovers == {Sc("PT", "put_tag", "v3", "M3", TRUE), Sc("PT", "tag_delete", "v2", "", TRUE), Sc("PT", "copy", "v3", "M3", TRUE),
                   Sc("PT", "blob_delete", "", "L4", FALSE)}
+\* content that does not match its descriptor (o = the bytes sent), boundary sizes
+BadContent == {Sc("P1", "blob_bad", "", "L2", FALSE), Sc("E", "blob_bad", "", "L4", FALSE), Sc("P1", "blob_bad", "", "L4", FALSE),
+               Sc("E0", "blob_bad", "", "L3", FALSE), Sc("P2", "man_bad", "", "M2", FALSE)}
+Boundaries == {Sc("P1", "blob_put", "", "L0", FALSE), Sc("E", "blob_put", "", "L0", FALSE), Sc("P1", "blob_put", "", "LK", FALSE),
+               Sc("P1", "blob_put", "", "LK1", FALSE)}
 Retags == {Sc("P2", "retag", "v3", "M1", FALSE), Sc("P2", "retag", "v2", "M1", TRUE)}
 \* image copy with referrers: kept apart, its interrupted form is not repaired by a repetition (findings/C07-2.md)
 RefCopy == {Sc("E", "copy_ref", "v1", "M1", TRUE), Sc("P1", "copy_ref", "v1", "M1", TRUE)}
 RefCopyQ == {Sc("P1", "copy_ref", "v1", "M1", TRUE)}
-Main == FromEmpty \cup OneTag \cup TwoTags \cup WithIndex \cup WithReferrers \cup WithLeftovers \cup Retags
-Populated == OneTag \cup TwoTags \cup WithIndex \cup WithReferrers \cup WithLeftovers \cup Retags
+Main == FromEmpty \cup OneTag \cup TwoTags \cup WithIndex \cup WithReferrers \cup WithLeftovers \cup Retags \cup BadContent \cup Boundaries
+Populated == (OneTag \cup TwoTags \cup WithIndex \cup WithReferrers \cup WithLeftovers \cup Retags \cup BadContent \cup Boundaries)
+             \ {s \in BadContent \cup Boundaries : s.start \in {"E", "E0"}}
 All == Main \cup RefCopy
 IxCopy == {Sc("E", "copy", "ix", "IX", TRUE), Sc("P1", "copy", "ix", "IX", TRUE)}
 \* quick tier: without the two scenarios that copy a two-image index from scratch with one goroutine per blob
